@@ -143,10 +143,14 @@ def gen_tables(tier):
     out = []
     for schema, alias, hc, note, props, comment, nidx in itertools.product(
             ('public', 's', 'my schema'), (None, 'al', 'my alias'), (None, '#fff', '#A1b2C3'), ('', 'table note', "multi\nline 'note'"),
-            (0, 1, 2), (None, 'one', 'two\nlines'), (0, 1)):
+            (0, 1, 2), (None, 'one', 'two\nlines'), (0, 1, 3)):
         t = A.table('t', [A.col('id', pk=True), A.col('v', 'varchar')], schema=schema, alias=alias, header_color=hc, note=note,
                     comment=comment, properties=[['k1', 'v1'], ['k 2', "v'2\nx"]][:props],
-                    indexes=[A.index(['id', 'v'], unique=True)] if nidx else [])
+                    indexes=[A.index(['id', 'v'], unique=True), A.index(['v'], name='second'), A.index([['expr', 'id+1']])][:nidx])
+        if nidx == 3:
+            if hc or props == 1 or comment == 'one':
+                continue            # (the three-index variant on a sub-product only)
+            t['idx_split'] = 1 if alias else 2      # written as two indexes blocks
         out.append(t)
     return out
 
